@@ -51,6 +51,13 @@ TEMPLATES = {
     "other": ("if a is lo and b is lo then {o1} is t2", None),
     "tab-and": ("if a is lo then {o0} is t1", "a is lo and\tb is hi"),
     "paren-or": ("if a is lo then {o0} is t1", "(a is lo)or(b is hi)"),
+    # the connective that needs the missing operator sits in the RIGHT operand of the other connective
+    "orand": ("if a is hi or b is lo and a is lo then {o0} is t1", None),
+    "or-paren-and": ("if a is hi or ( b is lo and a is lo ) then {o0} is t1", None),
+    "and-paren-or": ("if a is lo and ( b is hi or a is hi ) then {o0} is t2", None),
+    # an output variable read in an antecedent after an earlier rule has activated one of its terms
+    "chain": ("if {o0} is t1 then {o1} is t2", None),
+    "chain-and": ("if {o0} is t1 and a is lo then {o1} is t2", None),
 }
 
 
@@ -245,7 +252,8 @@ def key(case):
 # ------------------------------------------------------------------------------------------ generation
 
 RULESETS = [["plain"], ["and"], ["or"], ["andor"], ["plain", "or"], ["and", "or"], ["two"], ["and", "two"], ["other", "plain"],
-            ["tab-and"], ["paren-or"], ["plain", "paren-or"], []]
+            ["tab-and"], ["paren-or"], ["plain", "paren-or"], [], ["orand"], ["or-paren-and"], ["and-paren-or"], ["plain", "orand"],
+            ["plain", "chain"], ["plain", "chain-and"], ["or", "chain"]]
 
 
 def mk_rules(names, rng=None, flags=False):
